@@ -558,6 +558,10 @@ class HistGen:
             hops = rng.choice(ps)
             if len(hops) == 1 and rng.random() < 0.5:
                 hops = rng.choice(ps)
+            if rng.random() < 0.1:
+                longest = [h for h in ps if len(h) >= 4]
+                if longest:
+                    hops = rng.choice(longest)
         first = w.pair_for(*hops[0])
         x = first.reserves(led)[first.idx(hops[0][0])] if first else 0
         if amount is None:
